@@ -67,8 +67,11 @@ func functionValueType(returnTypes []ValueType) ValueType {
 
 	if len(returnTypes) > 1 {
 		valueType = NewValueType(DATA_TYPE_MULTIPLE, false)
-	} else {
+	} else if len(returnTypes) == 1 {
 		valueType = returnTypes[0]
+	} else {
+		// A function without return values has no usable value type.
+		valueType = NewValueType(DATA_TYPE_UNKNOWN, false)
 	}
 	return valueType
 }
